@@ -126,7 +126,7 @@ def make(prop, oracle, theorems, *, domain=rc.in_c01_domain, gen_kwargs=None, mo
                 if len(failures) >= 5:
                     break
         for stream in (extra_streams or []):
-            for f in stream(rng, tier, broken):
+            for f in stream(rng, tier, broken, info):
                 failures.append(f)
         info["distinct_nontrivial"] = len(nt)
         return failures, info
